@@ -21,6 +21,12 @@ CLAIMED = {
  "C05": dict(cat="proof", ref="DESIGN.md 4 (C05), 9",
   text="The independent codec is the set of layout assertions written from the RFC 7296 text into the lemma functions (offsets, widths, endianness, reserved octets zero, length fields equal to real extents, last-substructure markers, next-payload chain ending in 0, header length = datagram size): they are proved of the real encoders' output for all field values, and the real decoders are proved to recover the fields from arbitrary reference-built bytes, including sender liberties (reserved bits set, critical flag on understood payloads). Loop-free payloads and the header without bound; list bodies as bounded stand-ins as in C03.",
   note="'transforms in any order' is covered per transform (each is filed under its own type) in the bounded SA lemmas only."),
+ "C07": dict(cat="proof", ref="DESIGN.md 4 (C07), 9.2",
+  text="GenerateKeyForIKESA is executed symbolically for all 27 suites (one lemma per PRF, integrity and encryption algorithm symbolic), every nonce, shared secret and SPI pair, with HMAC as an uninterpreted function over abstract byte strings, and compared with a reference derivation written in the lemma over the standard library: SKEYSEED = HMAC(Ni|Nr, g^ir), seed = Ni|Nr|SPIi|SPIr (big endian), the seven keys = consecutive slices of prf+(SKEYSEED, seed) with the lengths typed from RFCs 2104/2403/2404/4868/3602 (also compared with the registries). The ready-to-use objects are probed: each PRF / integrity object computes HMAC under its key on any input, each cipher decrypts any ciphertext as textbook AES-CBC under its key. prf+ itself (lib.PrfPlus) is proved per iteration for every block and any buffered state of the hash object: T(i) = prf(K, T(i-1)|S|i), stream' = stream|T(i), with the loop invariant that ties block to the tail of stream; the seed builder has its own proved contract.",
+  note="ASSUMED at the two call sites of lib.PrfPlus: its result is a function of (hash algorithm, key of the hash object, seed, length) - justified by the proved per-iteration contract, not itself a discharged obligation (the induction over blocks is an argument in DESIGN.md). Bounded stand-ins: whole-function comparison of PrfPlus with a textbook prf+ for outputs of 4 blocks (SHA-256) / 3 blocks (MD5). 'Initiator and responder end up with identical SAs' follows from the post-condition being a function of the inputs (C09 gives agreement on g^ir)."),
+ "C08": dict(cat="proof", ref="DESIGN.md 4 (C08), 9.2",
+  text="GenerateKeyForChildSA is executed symbolically for every PRF (one lemma each), every ESP encryption key size and integrity algorithm including 'absent', every SK_d and nonce, on an IKE SA whose long-lived Prf_d object carries arbitrary buffered state from earlier use, and a second derivation is made on the same object: both are proved equal to slices of prf+(SK_d, Ni|Nr) computed on a freshly keyed HMAC in the order i2r encryption, i2r integrity, r2i encryption, r2i integrity with the RFC key lengths. Independence from the object's history rests on the per-iteration contract of lib.PrfPlus (reset before every block), which is an obligation of this property too.",
+  note="ASSUMED at the call site: lib.PrfPlus's result is a function of (algorithm, key, seed, length) (see C07). Destination fields of the ChildSAKey are empty, as on every object the library's constructors produce (the function appends to them)."),
  "C10": dict(cat="proof", ref="DESIGN.md 4 (C10), 9.2",
   text="NewCrypto, Encrypt and Decrypt of the AES-CBC transform are executed symbolically for all three key sizes, every key and every plaintext / ciphertext (any length), with AES-CBC as an uninterpreted function over abstract byte strings and the single axiom CBCdec(k,iv,CBCenc(k,iv,x)) = x. Obligations: key accepted iff its length is the negotiated one and library-made objects carry no fixed IV/padding; size law len = 16+16k, n < 16k <= n+16; the leading 16 octets are exactly this call's successful draw from the system random source and the object retains nothing; the body decrypts under a textbook crypto/cipher CBC decrypter (written in the lemma) to the plaintext followed by padding whose last octet is 16k-n-1; any failing read of the random source yields an error and no ciphertext; Decrypt(Encrypt(p)) = p; short / misaligned / impossible-pad ciphertexts are refused and every possible pad length 0..255 is accepted with the textbook result.",
   note="'no IV repeats across calls' is a property of the random source's distribution and is not decided (only provenance: the IV is the call's own unmodified draw). The padding loop (<= 15 iterations) is unrolled completely with the unwinding assertion on. crypto/aes + crypto/cipher are assumed to be textbook AES-CBC."),
